@@ -6,16 +6,50 @@ VERIF = os.path.dirname(os.path.dirname(os.path.abspath(__file__)))
 sys.path.insert(0, VERIF)
 import check  # noqa
 
+E = "exploration"
 LEVEL = {
-    "C01": ("exploration", "5/C01", "Generated-graph search with a validity oracle (count, simple cycles of the caller's graph, GF(2) rank) under ASan+UBSan; "
-            "evidence is N cases held, never absence.", "rapidcheck property-based testing, validity-predicate oracle"),
-    "C02": ("exploration", "5/C02", "Generated-graph search compared against two independent reference optima (brute force, textbook de Pina) "
-            "in exact arithmetic; many correct bases exist so weight and weight-vector are compared, not cycles.",
-            "rapidcheck property-based testing, differential oracle against reference MCB implementations"),
+ "C01": (E, "5/C01", "Generated-graph search with a validity oracle (count, simple cycles of the caller's graph, GF(2) rank) under ASan+UBSan; evidence is N cases held, never absence.", "rapidcheck property-based testing, validity-predicate oracle"),
+ "C02": (E, "5/C02", "Generated-graph search compared against two independent reference optima (brute force, textbook de Pina) in exact arithmetic; many correct bases exist, so weight and weight-vector are compared, not cycles.", "rapidcheck property-based testing, differential oracle against reference MCB implementations"),
+ "C03": (E, "3.4, 5/C03", "Schedules are owned by the test: a drop-in mock of the used oneTBB subset interprets a generated schedule tape (tape mode, ASan+UBSan, full result contract) or runs every task on its own thread under ThreadSanitizer (thread mode, race clause). Sound for the library's task bodies, blind to TBB-internal races.", "rapidcheck over schedule tapes on a mock scheduler + ThreadSanitizer as race oracle"),
+ "C04": (E, "3.5, 5/C04", "Real mpiexec jobs; rank 0 drives rapidcheck and every evaluation runs collectively with a generated communicator size and generated per-rank heap perturbation; hang = watchdog. Layouts are sampled, not enumerated.", "rapidcheck driving MPI jobs, differential oracle, allocator-perturbation fault injection, watchdog"),
+ "C05": (E, "5/C05", "Generated graphs and k against a validity oracle that insists on descriptors of the caller's graph after the call returned (ASan build).", "rapidcheck property-based testing, validity-predicate oracle + ASan"),
+ "C06": (E, "5/C06", "Exact integer comparison of the emitted weight with (2k-1) x an independent optimum; k=1 exactness; k=0 rejection. Includes a generated tight family (two terminals, parallel routes, one deviating heavy route).", "rapidcheck property-based testing, differential oracle against reference optimum"),
+ "C07": (E, "5/C07", "Sanitizers as oracle over all the other generators (ASan+UBSan+LSan per-window leak checks, asserts on), plus foreign-descriptor check. No MSan available.", "generated-input search with sanitizer monitors"),
+ "C08": (E, "5/C08", "Metamorphic relations need no reference optimum, so they reach graphs with hundreds of vertices; all six variants/backends must agree and the value must transform as stated.", "rapidcheck metamorphic / differential testing"),
+ "C09": (E, "5/C09", "Inexact double weights checked against exact rational arithmetic; the isometric variants' defect is an open known finding restricted to its input class (near-tie), everything else is a violation.", "rapidcheck property-based testing, exact-arithmetic reference oracle"),
+ "C10": (E, "5/C10", "Structure-aware text generation (rapidcheck) and coverage-guided fuzzing (libFuzzer, oracle inside the target) against an independent reference parser.", "rapidcheck + libFuzzer, round-trip against reference parser"),
+ "C11": (E, "5/C11", "Hypothesis generates files and option sets and runs the real executables (incl. mpiexec); exit status, diagnostics, printed weight vs an independent Python optimum, watchdog for termination.", "Hypothesis over command-line programs, differential oracle, watchdog"),
+ "C12": (E, "5/C12", "All n trees of a generated graph against an exact APSP oracle plus cross-tree consistency (reverse and sub-path closure) on tie-heavy inputs.", "rapidcheck property-based testing, reference APSP oracle"),
+ "C13": (E, "5/C13", "Generated graphs with pendant decorations; oracle removes the emitted set and tests for a forest.", "rapidcheck property-based testing, validity-predicate oracle"),
+ "C14": (E, "5/C14", "Builders called directly; each candidate validated structurally, nesting checked as sets, sufficiency by greedy GF(2) selection against the reference optimum.", "rapidcheck property-based testing, validity + reference oracle"),
+ "C15": (E, "5/C15", "Spanner inspected through guarded read-only accessors; stretch certificate per dropped edge by restricted BFS, girth by BFS.", "rapidcheck property-based testing, validity-predicate oracle (hooked accessors)"),
+ "C16": (E, "5/C16", "Generated graphs incl. degenerate ones; bijection, inverse lookups, component count, dimension and forest properties against union-find.", "rapidcheck property-based testing, reference union-find oracle"),
+ "C17": (E, "5/C17", "Model-based: generated operation histories against a dense vector<bool> model, invariant after every step, whole history shrinks.", "rapidcheck stateful / model-based testing"),
+ "C18": (E, "5/C18", "Generated arguments and SpVecFP histories for int, long and cpp_int against cpp_int arithmetic and Miller-Rabin.", "rapidcheck property-based + model-based testing, cpp_int reference"),
+ "C19": (E, "5/C19", "Finite program space: singleton TUs and all pairs enumerated exhaustively, multi-header TUs generated with Hypothesis; compiler and linker are the oracles.", "program enumeration/generation (Hypothesis) with compiler+linker oracle"),
+ "C20": (E, "5/C20", "Generated call histories on real libtbb observed through global_control::active_value (also from inside the library call) and generated demo option sets observed through a guarded hook line.", "rapidcheck history testing + Hypothesis over demo options"),
 }
 NOTE = {
-    "C01": "Trusted: union-find/GF(2) oracle code in engine/oracle.hpp; Boost.Graph descriptor identity (property address). Bounded sizes (n<=14 quick, n<=40 thorough).",
-    "C02": "Trusted: reference implementations in engine/oracle.hpp (cross-validated against each other on every run). Sizes n<=12 quick, n<=32 thorough.",
+ "C01": "Trusted: union-find/GF(2) oracle in engine/oracle.hpp; Boost.Graph descriptor identity (property address). Sizes n<=14 quick, n<=40 thorough.",
+ "C02": "Trusted: reference implementations in engine/oracle.hpp (cross-validated against each other on every run). Sizes n<=12 quick, n<=32 thorough.",
+ "C03": "Trusted: engine/mocktbb implements oneTBB's documented semantics and is not more liberal than oneTBB; TSan's happens-before model. Real-libtbb runs are in C07/C08/C20.",
+ "C04": "Trusted: OpenMPI/Boost.MPI; glibc malloc behaviour for the layout perturbation (diversity is measured and reported, not assumed). Built with UBSan only.",
+ "C05": "Trusted: oracle code; guarded accessors only classify cases. n<=16 quick, n<=40 thorough.",
+ "C06": "Trusted: reference optimum. Bound checked for k<=10^6.",
+ "C07": "Trusted: ASan/UBSan/LSan. Uninitialised reads invisible (no MSan). MPI code only under UBSan (C04).",
+ "C08": "Trusted: transform implementations in the harness (pure functions of graph+recipe); relations are from the property statement.",
+ "C09": "Trusted: exact __int128 arithmetic (weights are multiples of 2^-62). One open known finding (known_findings.txt).",
+ "C10": "Trusted: reference parser in engine/dimacs_check.hpp; domain = lines<1000 bytes, no blank lines/CR/NUL.",
+ "C11": "Trusted: Python brute-force optimum; 60 s watchdog on millisecond runs (3 confirmations).",
+ "C12": "Trusted: exact Dijkstra APSP with path counting in the oracle. n<=14 quick, n<=22 thorough.",
+ "C13": "Trusted: union-find forest test.",
+ "C14": "Trusted: reference optimum and GF(2) elimination.",
+ "C15": "Trusted: BFS oracles; hook accessors are read-only (MANIFEST.hooks).",
+ "C16": "Trusted: union-find.",
+ "C17": "Trusted: dense model. Moved-from vectors are cleared before reuse.",
+ "C18": "Trusted: Boost.Multiprecision cpp_int; built-in types restricted to operands for which the property's equations are representable (stated in evidence.assumptions).",
+ "C19": "Trusted: g++/clang++/ld. Instantiation snippets cover documented entry points per header.",
+ "C20": "Trusted: tbb::global_control::active_value as observation of 'allowed parallelism'; hook line only in PARMCB_VERIF builds.",
 }
 
 
@@ -58,10 +92,19 @@ def main():
 
 
 NA = {}
-HOOK_COMMITS = []
+HOOK_COMMITS = ["6ffa7e7", "3792bdd"]
 ENGINES = [
-    dict(name="check.py", path="/verif/check.py", serves_properties=sorted(LEVEL), kind_free_text="driver: content-hash build cache, shard runner, replay confirmation, evidence writer"),
-    dict(name="h_exact", path="/verif/engine/h_exact.cpp", serves_properties=["C01", "C02"], kind_free_text="rapidcheck harness, ASan+UBSan"),
+    dict(name="check.py", path="/verif/check.py", serves_properties=sorted(LEVEL), kind_free_text="driver: content-hash build cache, shard runner, libFuzzer jobs, replay confirmation (3x), known findings, evidence writer"),
+    dict(name="h_exact", path="/verif/engine/h_exact.cpp", serves_properties=["C01", "C02", "C07", "C08", "C09"], kind_free_text="rapidcheck harness, ASan+UBSan, real libtbb"),
+    dict(name="h_approx", path="/verif/engine/h_approx.cpp", serves_properties=["C05", "C06", "C07", "C15"], kind_free_text="rapidcheck harness, ASan+UBSan, -DPARMCB_VERIF accessors"),
+    dict(name="h_sched", path="/verif/engine/h_sched.cpp", serves_properties=["C03"], kind_free_text="rapidcheck harness on engine/mocktbb: tape mode (ASan+UBSan) and thread mode (TSan)"),
+    dict(name="h_mpi", path="/verif/engine/h_mpi.cpp", serves_properties=["C04"], kind_free_text="rapidcheck at rank 0 driving collective evaluations under mpiexec"),
+    dict(name="h_comp", path="/verif/engine/h_comp.cpp", serves_properties=["C07", "C12", "C13", "C14", "C16"], kind_free_text="rapidcheck harness, ASan+UBSan"),
+    dict(name="h_alg", path="/verif/engine/h_alg.cpp", serves_properties=["C07", "C17", "C18"], kind_free_text="rapidcheck model-based harness, ASan+UBSan"),
+    dict(name="h_dimacs+fz_dimacs", path="/verif/engine/h_dimacs.cpp", serves_properties=["C07", "C10"], kind_free_text="rapidcheck text generator + libFuzzer target with the oracle inside"),
+    dict(name="h_conc", path="/verif/engine/h_conc.cpp", serves_properties=["C20"], kind_free_text="rapidcheck call-history harness on real libtbb"),
+    dict(name="demos.py", path="/verif/engine/demos.py", serves_properties=["C11", "C20"], kind_free_text="Hypothesis strategies -> executables built from /repo/src"),
+    dict(name="headers.py", path="/verif/engine/headers.py", serves_properties=["C19"], kind_free_text="program enumeration/generation -> compiler/linker"),
 ]
 
 if __name__ == "__main__":
